@@ -17,6 +17,7 @@ import (
 	"strconv"
 	"sync"
 	"testing"
+	"time"
 )
 
 // Op is one stimulus (or one trace line): a JSON object.
@@ -265,8 +266,22 @@ func RunSharded(t *testing.T, cases []Case, run func(t *testing.T, c Case, rec *
 				if c.Cfg.Bool("skip") { // placeholder keeping the case numbering stable in a re-run
 					continue
 				}
+				// a case that does not come back (the code under test spins or waits for ever) cannot be interrupted from
+				// inside the process: after VERIF_CASE_WATCHDOG seconds of real time every goroutine is dumped and the process
+				// ends like a crash; the orchestration re-runs the suspects one by one and reports those that hang again
+				var dog *time.Timer
+				if d := EnvInt("VERIF_CASE_WATCHDOG", 0); d > 0 {
+					dog = time.AfterFunc(time.Duration(d)*time.Second, func() {
+						buf := make([]byte, 1<<22)
+						fmt.Printf("panic: verif watchdog: case %d did not finish within %d s\n\n%s\n", i, d, buf[:runtime.Stack(buf, true)])
+						os.Exit(3)
+					})
+				}
 				func() {
 					defer func() {
+						if dog != nil {
+							dog.Stop()
+						}
 						if r := recover(); r != nil {
 							if os.Getenv("VERIF_NORECOVER") != "" { // debugging aid: dump every goroutine
 								buf := make([]byte, 1<<22)
